@@ -277,3 +277,37 @@ pub proof fn lemma_i64_neg_canonical(v: i64, buf: Seq<u8>)
         lemma_be_val_8(s);
     }
 }
+
+pub proof fn lemma_be_val_leading_zero(t: Seq<u8>)
+    ensures
+        be_val(seq![0u8] + t) == be_val(t),
+    decreases t.len(),
+{
+    let s = seq![0u8] + t;
+    if t.len() == 0 {
+        assert(s =~= seq![0u8]);
+        lemma_be_val_1(s);
+        reveal_with_fuel(be_val, 1);
+    } else {
+        assert(s.drop_last() =~= seq![0u8] + t.drop_last());
+        assert(s.last() == t.last());
+        lemma_be_val_leading_zero(t.drop_last());
+    }
+}
+
+/// dropping a leading zero byte that is not needed as a sign byte keeps the signed value
+pub proof fn lemma_signed_strip_zero(s: Seq<u8>)
+    requires
+        s.len() >= 1,
+        s[0] == 0,
+        s.len() == 1 || s[1] < 0x80,
+    ensures
+        signed_be(s.skip(1)) == signed_be(s),
+{
+    let t = s.skip(1);
+    assert(s =~= seq![0u8] + t);
+    lemma_be_val_leading_zero(t);
+    if t.len() == 0 {
+        reveal_with_fuel(be_val, 1);
+    }
+}
